@@ -650,12 +650,49 @@ func locksGiveArg(n ast.Node) ast.Expr {
 }
 
 func (h *locksHand) gives(n ast.Node) bool {
-	if arg := locksGiveArg(n); arg != nil {
+	for _, arg := range locksGiveArgs(h.p, n) {
 		if id := locksPlainIdent(arg); id != nil && h.p.TypesInfo.Uses[id] == h.v {
 			return true
 		}
 	}
 	return false
+}
+
+// locksGivers: functions of the scanned packages that hand one of their parameters on (on some path, directly or through
+// another such function): function -> parameter indices. Filled by the fixpoint of locksHandoverSites; a call
+// `f(…, v, …)` of such a function with v in such a position is a hand-over of v by the caller.
+var locksGivers = map[*types.Func]map[int]bool{}
+
+// locksGiveArgs: the expressions a node hands on: the argument of a direct hand-over, or the arguments a callee hands on
+func locksGiveArgs(p *packages.Package, n ast.Node) []ast.Expr {
+	if arg := locksGiveArg(n); arg != nil {
+		return []ast.Expr{arg}
+	}
+	call, ok := n.(*ast.CallExpr)
+	if !ok {
+		return nil
+	}
+	var id *ast.Ident
+	switch fn := call.Fun.(type) {
+	case *ast.Ident:
+		id = fn
+	case *ast.SelectorExpr:
+		id = fn.Sel
+	}
+	if id == nil {
+		return nil
+	}
+	callee, ok := p.TypesInfo.Uses[id].(*types.Func)
+	if !ok {
+		return nil
+	}
+	var out []ast.Expr
+	for i := range locksGivers[callee] {
+		if i < len(call.Args) {
+			out = append(out, call.Args[i])
+		}
+	}
+	return out
 }
 
 func locksAddU(w string) string {
@@ -857,6 +894,27 @@ func locksHandoverType(t types.Type) bool {
 // locksHandoverSites: every (function or function literal, variable) with a direct hand-over.
 func locksHandoverSites(t *tr, pkgs []*packages.Package) string {
 	var rows []string
+	locksGivers = map[*types.Func]map[int]bool{}
+	// fixpoint: a function that hands a parameter on makes its callers hand their argument on
+	for round := 0; round < 6; round++ {
+		var grew bool
+		rows, grew = locksHandoverPass(pkgs)
+		if !grew {
+			break
+		}
+	}
+	sort.Strings(rows)
+	rows = locksDedup(rows)
+	var b strings.Builder
+	b.WriteString("\n/-- regenerated: (function, variable, word) for every function that hands a sample or an ammo on — U use, G\n")
+	b.WriteString("hand-over (channel send, Put, Release, Report, releaseSample, or a call of a function that hands that parameter on) —\n")
+	b.WriteString("one word per path through the function (a loop runs zero, one or two times; deferred hand-overs come last) -/\n")
+	b.WriteString("def handoverSites : List (String × String × String) := [\n" + strings.Join(rows, ",\n") + "\n]\n")
+	return b.String()
+}
+
+// locksHandoverPass: one pass over all functions with the current set of givers; reports whether the set grew.
+func locksHandoverPass(pkgs []*packages.Package) (rows []string, grew bool) {
 	for _, p := range pkgs {
 		short := strings.TrimPrefix(p.PkgPath, locksPandora)
 		for _, f := range p.Syntax {
@@ -888,7 +946,7 @@ func locksHandoverSites(t *tr, pkgs []*packages.Package) string {
 						if l, ok := m.(*ast.FuncLit); ok && l.Body != b.body {
 							return false
 						}
-						if arg := locksGiveArg(m); arg != nil {
+						for _, arg := range locksGiveArgs(p, m) {
 							if id := locksPlainIdent(arg); id != nil {
 								if v, ok := p.TypesInfo.Uses[id].(*types.Var); ok && !v.IsField() && v.Parent() != p.Types.Scope() && locksHandoverType(v.Type()) {
 									cands[v] = true
@@ -908,19 +966,33 @@ func locksHandoverSites(t *tr, pkgs []*packages.Package) string {
 						for _, w := range locksSorted(h.done) {
 							rows = append(rows, fmt.Sprintf("  (%q, %q, %q)", short+"."+b.name, v.Name(), w))
 						}
+						// the declaration itself hands a parameter on: its callers do
+						if b.body == fd.Body && len(h.done) > 0 {
+							if fn, ok := p.TypesInfo.Defs[fd.Name].(*types.Func); ok {
+								i := 0
+								for _, f := range fd.Type.Params.List {
+									for _, nm := range f.Names {
+										if p.TypesInfo.Defs[nm] == v && !locksGivers[fn][i] {
+											if locksGivers[fn] == nil {
+												locksGivers[fn] = map[int]bool{}
+											}
+											locksGivers[fn][i] = true
+											grew = true
+										}
+										i++
+									}
+									if len(f.Names) == 0 {
+										i++
+									}
+								}
+							}
+						}
 					}
 				}
 			}
 		}
 	}
-	sort.Strings(rows)
-	rows = locksDedup(rows)
-	var b strings.Builder
-	b.WriteString("\n/-- regenerated: (function, variable, word) for every function that hands a sample or an ammo on directly — U use, G\n")
-	b.WriteString("hand-over (channel send, Put, Release, Report, releaseSample) — one word per path through the function (a loop runs\n")
-	b.WriteString("zero, one or two times; deferred hand-overs come last) -/\n")
-	b.WriteString("def handoverSites : List (String × String × String) := [\n" + strings.Join(rows, ",\n") + "\n]\n")
-	return b.String()
+	return rows, grew
 }
 
 func locksDedup(xs []string) []string {
